@@ -3,11 +3,13 @@ CONSTANTS
   NoNextFileNumberLog = FALSE
   StoreSnapshotLogsManifest = FALSE
   Reader = {"r1", "r2"}
+  Flusher = {"f1"}
   MaxFlush = 3
   MaxCompact = 1
   MaxCleanup = 2
   CollectActiveFirst = TRUE
   UnpendEarly = FALSE
+  BaseBeforeLock = FALSE
 SPECIFICATION MCSpec
 INVARIANTS SnapshotFilesExist NeededFilesExist NoPartialVisible ContentIsCommitted
 PROPERTIES CleanupRemovesOnlyDead
